@@ -146,7 +146,8 @@ func runShard(p *run.Prop, self, dir string, shard, n int, timeout time.Duration
 			"-shard", strconv.Itoa(shard), "-nshards", strconv.Itoa(n), "-out", dir, "-resume", strconv.FormatUint(resume, 10))
 		cmd.Stderr = ef
 		cmd.Stdout = ef
-		cmd.Env = append(os.Environ(), "GOTRACEBACK=all")
+		cmd.Env = append(os.Environ(), "GOTRACEBACK=all",
+			fmt.Sprintf("GORACE=halt_on_error=0 exitcode=0 log_path=%s", filepath.Join(dir, fmt.Sprintf("race-shard-%d", shard))))
 		start := time.Now()
 		if err := cmd.Start(); err != nil {
 			out.inconclusive = append(out.inconclusive, fmt.Sprintf("shard %d: cannot start worker: %v", shard, err))
@@ -323,6 +324,30 @@ func parent(p *run.Prop) int {
 	if len(samples) > 3 {
 		samples = samples[:3]
 	}
+	// race detector reports (only produced by -race builds): every report is a violation
+	raceReports := 0
+	if rf, _ := filepath.Glob(filepath.Join(dir, "race-shard-*")); len(rf) > 0 {
+		seenRace := map[string]bool{}
+		for _, f := range rf {
+			b, err := os.ReadFile(f)
+			if err != nil {
+				continue
+			}
+			for _, blk := range strings.Split(string(b), "==================") {
+				if !strings.Contains(blk, "WARNING: DATA RACE") {
+					continue
+				}
+				raceReports++
+				key := raceKey(blk)
+				if seenRace[key] {
+					continue
+				}
+				seenRace[key] = true
+				failures = append(failures, run.Failure{Prop: p.ID, CaseID: "concurrent/0/0", Sub: "data-race/" + key, Class: "", Detail: firstLines(strings.TrimSpace(blk), 40)})
+			}
+		}
+	}
+	counters["race_reports"] = int64(raceReports)
 	sort.SliceStable(failures, func(i, j int) bool {
 		if failures[i].CaseID != failures[j].CaseID {
 			return failures[i].CaseID < failures[j].CaseID
@@ -436,6 +461,27 @@ func parent(p *run.Prop) int {
 		return 3
 	}
 	return 0
+}
+
+// raceKey deduplicates race reports by the pair of library functions on top of the two stacks.
+func raceKey(blk string) string {
+	var fns []string
+	lines := strings.Split(blk, "\n")
+	for i, ln := range lines {
+		t := strings.TrimSpace(ln)
+		if (strings.HasPrefix(t, "Write at") || strings.HasPrefix(t, "Read at") || strings.HasPrefix(t, "Previous write at") || strings.HasPrefix(t, "Previous read at")) && i+1 < len(lines) {
+			f := strings.TrimSpace(lines[i+1])
+			if j := strings.LastIndex(f, "/"); j >= 0 {
+				f = f[j+1:]
+			}
+			if j := strings.Index(f, "("); j > 0 {
+				f = f[:j]
+			}
+			fns = append(fns, f)
+		}
+	}
+	sort.Strings(fns)
+	return strings.Join(fns, "~")
 }
 
 func sanitize(s string) string {
